@@ -183,7 +183,8 @@ def _real_header_roundtrip(nx, ny):
 
 def _mk_header(upto999):
     """Model: the fields are written with str.format '{:Wd}' (width W read from the source's header format string), which
-    right-justifies and never truncates; the reader takes the last three whitespace-separated words.  A field is separated from
+    right-justifies and never truncates; the reader takes the last three whitespace-separated words, or - if the current tree's reader does so
+    (probed on three sizes) - the three fixed-width fields when one of them is filled completely.  Without that, a field is separated from
     its left neighbour iff it has fewer digits than its width.  The model is validated against the real write()/read() on boundary
     sizes every run; z3 then decides over all nx, ny."""
     def body(env):
@@ -193,16 +194,23 @@ def _mk_header(upto999):
         widths = [int(re.fullmatch(r"(\d+)d", w[k]).group(1)) for k in (4, 5, 6)]
         # the field before idum is the time string, left-justified in 16: idum (=3, one digit) is always separated
         if env.mode == "sym":
-            for (a, b) in [(1, 1), (9, 10), (99, 100), (999, 7), (7, 999), (1000, 7), (7, 1000), (12, 1234)]:
-                model_ok = len(str(a)) < widths[1] and len(str(b)) < widths[2]
+            # does the reader of the current tree separate fields that fill their whole width (values with as many digits as the field is wide)?
+            full_width_ok = all(_real_header_roundtrip(a, b) for (a, b) in [(1000, 7), (7, 1000), (1234, 3)])
+            for (a, b) in [(1, 1), (9, 10), (99, 100), (999, 7), (7, 999), (1000, 7), (7, 1000), (12, 1234), (9999, 2), (2, 9999)]:
+                if full_width_ok:
+                    model_ok = len(str(a)) <= widths[1] and len(str(b)) <= widths[2]
+                else:
+                    model_ok = len(str(a)) < widths[1] and len(str(b)) < widths[2]
                 if _real_header_roundtrip(a, b) != model_ok:
                     raise core.HarnessError("header model disagrees with real write/read for nx=%d ny=%d" % (a, b))
-            env.notes.append("header model validated against real write/read on 8 boundary sizes; widths from source: %s" % widths)
-        nx, ny = env.int("nx", lo=1, hi=99999), env.int("ny", lo=1, hi=99999)
+            env.notes.append("header model validated against real write/read on 10 boundary sizes; widths from source: %s; reader handles full-width fields: %s" % (widths, full_width_ok))
+        # (sizes with more digits than the i4 fields are wide are not representable in the format: outside the property)
+        nx, ny = env.int("nx", lo=1, hi=10 ** widths[1] - 1), env.int("ny", lo=1, hi=10 ** widths[2] - 1)
         if env.mode == "sym":
             small = z3.And(core.lift_int(nx) <= 999, core.lift_int(ny) <= 999)
             env.add(small if upto999 else z3.Not(small))
-            ok = z3.And(_digits(core.lift_int(nx)) < widths[1], _digits(core.lift_int(ny)) < widths[2], 1 < widths[0])
+            dn, dm = _digits(core.lift_int(nx)), _digits(core.lift_int(ny))
+            ok = z3.And(dn <= widths[1], dm <= widths[2], 1 < widths[0]) if full_width_ok else z3.And(dn < widths[1], dm < widths[2], 1 < widths[0])
             env.witness("sizes_in_this_class_exist")
             env.claim("header_roundtrips_nx_ny", SymBool(ok))
         else:
@@ -393,7 +401,7 @@ OBLIGATIONS.append(Ob("header_fields_upto_999", _mk_header(True), tier="quick", 
                       timeout_ms=60000, final_timeout_ms=120000))
 OBLIGATIONS.append(Ob("header_fields_1000_and_more", _mk_header(False), tier="quick", family="header",
                       desc="fixed-width header: split()[-3:] recovers idum, nx, ny when nx or ny >= 1000 (i4 fields abut)",
-                      encodes=["hypnotoad.geqdsk._geqdsk:write", "hypnotoad.geqdsk._geqdsk:read"], bounds="nx or ny with 4..5 digits",
+                      encodes=["hypnotoad.geqdsk._geqdsk:write", "hypnotoad.geqdsk._geqdsk:read"], bounds="nx or ny with 4 digits (more are not representable in i4)",
                       timeout_ms=60000, final_timeout_ms=120000))
 _sizes_q = [(1, 1, 0, 0, True), (2, 3, 1, 0, False), (3, 2, 0, 2, True), (4, 4, 3, 3, False), (6, 1, 2, 1, True), (5, 5, 0, 0, True)]
 _sizes_t = [(nx, ny, nb, nl, opt) for nx in range(1, 8) for ny in (1, 2, 5, 7) for (nb, nl) in ((0, 0), (1, 3), (3, 1), (2, 2)) for opt in (True, False)]
